@@ -98,6 +98,7 @@ class SchedImpl:
         self.executor = executor
         self.seed = seed
         self.tz = tz
+        self.skew = None
         self.epoch_ns = epoch_ns
         self.base = 0                 # trace instants are absolute nanoseconds
         self.specs = specs
@@ -281,7 +282,9 @@ class SchedImpl:
         old = signal.signal(signal.SIGALRM, _alarm)
         signal.setitimer(signal.ITIMER_REAL, 60.0)
         try:
-            return run_virtual(lambda loop: self._run(loop, lines), self.epoch_ns)
+            # a third of the cases run with a loop clock that is ahead of the wall clock (timers fire early)
+            skew = [0, 0, 250_000, 5_000_000][self.seed % 4] if self.skew is None else self.skew
+            return run_virtual(lambda loop: self._run(loop, lines), self.epoch_ns, skew)
         finally:
             signal.setitimer(signal.ITIMER_REAL, 0)
             signal.signal(signal.SIGALRM, old)
